@@ -44,7 +44,7 @@ def check(s):
     self_ = ("param", "self")
     # ---------------------------------------------------------------- C11.1 / C11.4
     n = 0
-    kinds1 = ("forbidden-callee", "constant-key", "global-state", "setattr", "set-iteration")
+    kinds1 = ("forbidden-callee", "constant-key", "global-state", "setattr", "set-iteration", "memoization", "host-callback")
     kinds4 = ("attribute-assignment", "item-assignment", "dict-access", "setattr")
     for m, ci, qual, fn in functions_of(P, module_filter=training_scope):
         if fn.name in ("render", "render_states", "render_stacked", "default_renderer", "serialize"):
